@@ -139,7 +139,7 @@ PROPS["C06"] = {
 
 PROPS["C04"] = {
     "level": "proof",
-    "technique": "Verus contracts on the real cost code (constants, subtract_cost, interned_vbytes, unknown-condition cost indexing) plus exhaustive native evaluation of the 2-byte cost table against the closed form; pre-charge accounting and cost conservation in parse_conditions / process_single_spend; cost at the exits of run_spendbundle, run_block_generator2 and parse_spends (unit drivers); native evaluation of exact-limit obligations (budget == cost passes, cost - 1 fails) per cost class on both paths",
+    "technique": "Verus contracts on the real cost code (constants, subtract_cost, interned_vbytes, unknown-condition cost indexing) plus exhaustive native evaluation of the 2-byte cost table against the closed form; pre-charge accounting and cost conservation in parse_conditions / process_single_spend; cost at the exits of run_spendbundle, run_block_generator2, the legacy run_block_generator and parse_spends (unit drivers); native evaluation of exact-limit obligations (budget == cost passes, cost - 1 fails) per cost class on both paths",
     "level_text": "Deductive proof of the cost constants, of subtract_cost (succeeds iff the charge fits, exact at the limit, frame on failure), of interned_vbytes == sum(atom_len)+2*atoms+3*pairs, and of the low-byte indexing of the unknown-condition table; the 65536 values of compute_unknown_condition_cost are decided exhaustively by evaluating the real function against an independent big-integer closed form.",
     "level_note": "parse_conditions' accounting is proved: the three accumulators (limit, bundle, spend) move by exactly the table cost of each condition, charged before its arguments are parsed, with CostExceeded exactly when the charge does not fit; SPEND_COST in process_single_spend. The driver exits are proved in unit drivers: run_spendbundle and run_block_generator2 report exactly generator size cost (serialized length minus the quote wrapper, resp. program length, resp. interned virtual bytes, times cost_per_byte) + CLVM execution cost + condition cost, never more than the limit, every charge through subtract_cost, under the cost-conservation contract of process_single_spend proved in unit conditions_aggsig. CLVM execution cost is whatever run_program returns (assumed <= the budget it was given). Exactness of the limit end to end (a budget equal to the cost passes, one less fails) is a relation between two runs: decided on ground bundles on both paths with and without COST_CONDITIONS (task paths_ground), since a one-directional contract cannot see a test that rejects too early.",
     "components": [V("costs"), V("conditions_effects"), N("native_cost_table", "cost_table"), V("drivers"), N("native_paths_ground", "paths_ground")],
@@ -148,7 +148,8 @@ PROPS["C04"] = {
         "allocator limits (< 2^32 heap bytes / atoms / pairs) as the precondition of interned_vbytes",
     ],
     "not_covered": [
-        "the legacy run_block_generator (ROM path) exit; get_coinspends/additions_and_removals do not report cost",
+        "get_coinspends/additions_and_removals do not report cost",
+        "the legacy run_block_generator: the ROM generator's argument list construction is behind a shim (the allocator is opaque); its cost exit (size + execution + conditions, within the one budget) is under contract and its limit is exact on the ground bundles",
     ],
 }
 
@@ -249,8 +250,8 @@ PROPS["C02"] = {
     "level": "proof",
     "technique": "Verus contracts on the real process_single_spend / compute_coin_id / Coin::coin_id / parse_conditions: coin-id formula over the canonical amount, double-spend exclusion via the spent-coin map, duplicate-output exclusion (NewCoin identity) and exact totals; validate_conditions' conservation clauses (iff); run_spendbundle's recorded spend identity (declared puzzle hash == tree hash of the reveal)",
     "level_text": "Deductive proof: every accepted spend has a 32-byte parent and puzzle hash and a canonical amount; its coin id is sha256(parent ‖ puzzle hash ‖ canon(amount)) (and Coin::coin_id computes the same formula); the id was not spent before in the bundle (else DoubleSpend); removal_amount grows by exactly the coin amount, addition_amount by exactly the created amounts, no (puzzle hash, amount) is created twice by one spend, u128 totals cannot overflow.",
-    "level_note": "The final conservation test in validate_conditions (additions <= removals, reserved fee <= removals - additions) is proved in unit validate_conds (iff); in run_spendbundle (unit drivers) the spend recorded for each coin is proved to carry the coin's own parent id, its declared puzzle hash - checked equal to the tree hash of the revealed puzzle - and its amount; run_block_generator2 computes the puzzle hash itself (tree_hash_cached of the reveal). sha256 uninterpreted; NewCoinSet identity assumed to be (puzzle_hash, amount) as NewCoin's PartialEq/Hash implement it.",
-    "components": [V("conditions_effects"), V("int_encoders"), V("validate_conds"), V("drivers")],
+    "level_note": "The final conservation test in validate_conditions (additions <= removals, reserved fee <= removals - additions) is proved in unit validate_conds (iff); in run_spendbundle (unit drivers) the spend recorded for each coin is proved to carry the coin's own parent id, its declared puzzle hash - checked equal to the tree hash of the revealed puzzle - and its amount; run_block_generator2 computes the puzzle hash itself (tree_hash_cached of the reveal). Ground side (task paths_ground): every accepted bundle's reported (coin id, puzzle hash, amount) triples are recomputed from the revealed puzzles, and bundles whose second/third/first spend declares an honest spend's puzzle hash over a different reveal must be rejected. sha256 uninterpreted; NewCoinSet identity assumed to be (puzzle_hash, amount) as NewCoin's PartialEq/Hash implement it.",
+    "components": [V("conditions_effects"), V("int_encoders"), V("validate_conds"), V("drivers"), N("native_paths_ground", "paths_ground")],
     "assumptions": ["Sha256 ghost model", "HashMap<Arc<Bytes32>, usize> / HashSet<NewCoin> insertion semantics (shims/cond_env.rs)"],
     "not_covered": [
         "run_block_generator2: that the node handed over as puzzle hash is tree_hash_cached(puzzle reveal) is in the extracted text but not a clause of its contract (the allocator is opaque there)",
